@@ -79,8 +79,14 @@ def snap(obj):
     if obj is None:
         return ("N",)
     if isinstance(obj, torch.Tensor):
+        try:
+            has_fn = obj.grad_fn is not None
+        except RuntimeError:
+            # torch refuses to rebase the history of a returned view whose base
+            # was modified in place behind the caller's back
+            has_fn = "unusable"
         return ("T", DTNAME.get(obj.dtype, str(obj.dtype)), tuple(obj.shape),
-                bool(obj.requires_grad), obj.grad_fn is not None, to_numpy(obj))
+                bool(obj.requires_grad), has_fn, to_numpy(obj))
     if isinstance(obj, np.ndarray):
         return ("A", str(obj.dtype), tuple(obj.shape), np.array(obj, copy=True))
     if isinstance(obj, (list, tuple)):
@@ -126,7 +132,7 @@ def snap_digest(s, h=None):
 def describe(s):
     tag = s[0]
     if tag == "T":
-        return "T[%s %s rg=%s fn=%s]" % (s[1], list(s[2]), int(s[3]), int(s[4]))
+        return "T[%s %s rg=%s fn=%s]" % (s[1], list(s[2]), int(s[3]), s[4])
     if tag == "A":
         return "A[%s %s]" % (s[1], list(s[2]))
     if tag in ("L", "U"):
